@@ -710,6 +710,55 @@ fn replay(variant: &str, case: &Json) -> Result<(), String> {
     }
 }
 
+/// seed inputs for the coverage-guided target: one small valid encoding per decode target and the
+/// committed regression inputs
+pub fn fuzz_seeds() -> Vec<Vec<u8>> {
+    let mut out: Vec<Vec<u8>> = Vec::new();
+    let golden: &[&str] = &[
+        "40", "41", "5201", "70000186a0", "a10568656c6c6f", "a3046e616d65", "a00401020304", "c0050243405201", "c105025201a10161", "e0060271000000010000000002", "005310c0080143a1016143",
+        "005311c00804405201435264", "005312c01507a1016c4342500050020028c0080140404040404040", "005313c00b0743526443526443435264", "005314c00905430a0000a0017443", "005315c0060441430052415324c00100",
+        "005316c0030243410a", "005317c00100", "005318c00100", "005340c0070101e00402a305504c41494e", "005341c00b02a305504c41494ea0030061006200", "005344c0020150000a",
+        "005370c0030141500400", "005373c00d02a1016d40", "005375a003616263", "005377a1026869", "00537452015201",
+    ];
+    for t in 0..N_TARGETS {
+        for g in golden {
+            let mut v = vec![t];
+            v.extend(unhex(g));
+            out.push(v);
+        }
+    }
+    if let Ok(rd) = std::fs::read_dir("/verif/replays/regress/C04") {
+        for e in rd.flatten() {
+            if let Ok(b) = std::fs::read(e.path()) {
+                if let Ok(j) = serde_json::from_slice::<Json>(&b) {
+                    if let (Some(t), Some(h)) = (j["case"]["target"].as_u64(), j["case"]["hex"].as_str()) {
+                        let mut v = vec![t as u8];
+                        v.extend(unhex(h));
+                        out.push(v);
+                    }
+                }
+            }
+        }
+    }
+    out
+}
+
+/// entry point of the coverage-guided target (fuzz/fuzz_targets/c04_decode.rs)
+pub fn fuzz_one(t: u8, bytes: &[u8]) -> Result<(), String> {
+    static INIT: std::sync::Once = std::sync::Once::new();
+    INIT.call_once(|| {
+        crate::driver::install_panic_hook();
+        let open = open_ids_for("C04");
+        SKIP_EMPTY_BODY_GLOBAL.store(open.iter().any(|o| o == "KF-message-empty-body"), std::sync::atomic::Ordering::Relaxed);
+        SKIP_ARRAY_CLASSES.store(open.iter().any(|o| o == "KF-codec-array-of-null" || o == "KF-codec-array-of-compound"), std::sync::atomic::Ordering::Relaxed);
+        crate::refcodec::AVOID_ZERO_WIDTH_DEFAULT.store(open.iter().any(|o| o == "KF-codec-array-of-null"), std::sync::atomic::Ordering::Relaxed);
+    });
+    match RUNNER.with(|r| r.run("", t % N_TARGETS, bytes)) {
+        Ok(_) => Ok(()),
+        Err((_, d)) => Err(d),
+    }
+}
+
 #[allow(dead_code)]
 fn _j() -> Json {
     json!(null)
